@@ -233,7 +233,7 @@ def _scal_cfgs(tier):
     k = 0
     real_shapes = {"total": ["n3", "n6", "1x4", "2x3", "3x2", "2x1x2", "2x2x2"], "avg": ["n3", "n6", "1x4", "2x3", "3x2", "2x2x2"],
                    "antenna": ["1x2x2", "2x2x1", "2x2x2", "1x2x3", "2x2x1x2", "1x1x4", "2x2", "2x3"], "antenna_budget": ["1x2x2", "2x2x2", "2x3x1", "2x2"]}
-    cplx_shapes = {"total": ["n2", "n3", "1x3", "2x2", "2x1x2"], "avg": ["n3", "1x3", "2x2"], "antenna": ["1x2x2", "2x2x1"], "antenna_budget": ["1x2x2"]}
+    cplx_shapes = {"total": ["n2", "n3", "1x3", "2x2", "2x1x2"], "avg": ["n3", "1x3", "2x2"], "antenna": ["1x2x2", "2x2x1", "2x2"], "antenna_budget": ["1x2x2", "2x2"]}  # incl. the complex [batch, antennas] layout
     for kind in ("total", "avg", "antenna", "antenna_budget"):
         for cplx, table in ((False, real_shapes), (True, cplx_shapes)):
             for shp in table[kind]:
@@ -795,8 +795,10 @@ def papr_bounded(spec, cfg, tier, seed):
     fam, dom = cfg
     cplx = dom == "complex"
     t0 = time.time()
-    gen = torch.Generator().manual_seed(seed * 977 + hash((fam, dom)) % 1000)
-    fail_limit = fail_item = fail_batch = None
+    import zlib
+
+    gen = torch.Generator().manual_seed(seed * 977 + zlib.crc32(f"{fam}/{dom}".encode()) % 1000)  # stable across processes (str hash is salted)
+    fail_limit = fail_item = fail_batch = fail_weak = None
     evals = cases = 0
     reps = 2 if tier == "quick" else 8
     with torch.no_grad():
@@ -817,8 +819,14 @@ def papr_bounded(spec, cfg, tier, seed):
                             for b in range(nb):
                                 cases += 1
                                 pr = _papr(yi[b])
-                                if pr > L * (1 + 1e-6) and fail_limit is None:
-                                    fail_limit = {"max_papr": L, "shape": list(shape), "scale": scale, "item": b, "papr_out": pr, "papr_in": _papr(rows[b]), "x_item": [str(v) for v in rows[b].tolist()[:16]]}
+                                if pr > L * (1 + 1e-6):
+                                    w_ = {"max_papr": L, "shape": list(shape), "scale": scale, "item": b, "papr_out": pr, "papr_in": _papr(rows[b]), "x_item": [str(v) for v in rows[b].tolist()[:16]]}
+                                    # weak signals (mean power < 1e-3, where the code's absolute 1e-8 guard is not negligible) are the known
+                                    # finding recorded through C08.papr_weak_signal_inputs; they are reported under their own clause
+                                    if float((rows[b].abs() ** 2).mean()) < 1e-3:
+                                        fail_weak = fail_weak or w_
+                                    else:
+                                        fail_limit = fail_limit or w_
                                 # every sample keeps its sign / phase and is never amplified
                                 xb = rows[b].reshape(-1)
                                 ok = bool((yi[b].abs() <= xb.abs() * (1 + 1e-5) + 1e-12).all()) and bool(((yi[b] * xb.conj()).real >= -1e-9 * float(xb.abs().max()) ** 2).all())
@@ -832,7 +840,8 @@ def papr_bounded(spec, cfg, tier, seed):
                                     if not torch.allclose(ys, yi[b], rtol=1e-5, atol=1e-7 * scale) and fail_batch is None:
                                         fail_batch = {"max_papr": L, "shape": list(shape), "scale": scale, "item": b}
     d = f"family {fam}/{dom}: limits 1.5..10 x n 8..{64 if tier == 'quick' else 256} x scales 1e-2..1e4 x layouts 1-D,(1,n),(3,n),3-D,4-D; non-sparse signals only (>= 1/4 of the samples within 20 dB of the peak); {evals} calls, {cases} items"
-    return [_bres(spec, "output_papr_within_limit", cfg, fail_limit, evals, cases, d, t0), _bres(spec, "clips_without_amplifying_or_rotating", cfg, fail_item, evals, cases, d, t0),
+    return [_bres(spec, "output_papr_within_limit", cfg, fail_limit, evals, cases, d + "; items of mean power >= 1e-3", t0), _bres(spec, "output_papr_within_limit.weak_signals", cfg, fail_weak, evals, cases, d + "; items of mean power < 1e-3", t0),
+            _bres(spec, "clips_without_amplifying_or_rotating", cfg, fail_item, evals, cases, d, t0),
             _bres(spec, "batched_path_equals_per_item_path", cfg, fail_batch, evals, cases, d + " (torch.vmap raises on the data-dependent loop; the except branch loops over the items)", t0)]
 
 
@@ -952,3 +961,26 @@ def factory_bounded(spec, cfg, tier, seed):
     d = f"{kind}/{dom}: 6 families x scales 1e-2..1e4 x n 16,64 x layouts/batches, non-sparse signals, feasible limit combinations; {evals} calls, {cases} items"
     names = {"ofdm": ["power_limit", "papr_limit", "peak_limit"], "ofdm_nopeak": ["power_limit", "papr_limit"], "mimo_uniform": ["power_limit", "papr_limit"], "mimo_total": ["power_limit", "papr_limit"], "random_chain": ["composite_equals_sequential"]}[kind]
     return [_bres(spec, nm, cfg, fails.get(nm), evals, cases, d, t0) for nm in names]
+
+
+# ---------------------------------------------------------------------------------------- known weak-signal inputs (closed obligations)
+# Found by C08.papr_bounded while its signal seed was still process-dependent: admissible (non-sparse) weak signals on which the
+# constraint misses a tight limit.  Kept as explicit closed obligations so that the finding is reproduced deterministically.
+PAPR_WEAK_SIGNALS = {
+    "uniform_n8_a": (1.5, [8.478760719299316e-05, -3.0695198802277446e-05, -0.004958632867783308, -7.162570545915514e-05, -0.008678712882101536, -0.003923397045582533, -0.006031017284840345, -0.00473908893764019]),
+}
+
+
+@obligation("C08.papr_weak_signal_inputs", function=FP + ":PAPRConstraint._apply_constraint_to_single_item", configs=lambda tier: [Cfg("weak", k) for k in PAPR_WEAK_SIGNALS], kind="ground", engine="ground")
+def papr_weak_signal_inputs(cfg):
+    from kaira.constraints.power import PAPRConstraint
+
+    L, vals = PAPR_WEAK_SIGNALS[cfg[1]]
+    x = torch.tensor(vals)
+    mags = sorted(abs(v) for v in vals)
+    nonsparse = sum(1 for v in mags if v >= mags[-1] / 10) * 4 >= len(mags)
+    y = PAPRConstraint(L)(x)
+    p = y.abs() ** 2
+    papr = float(p.max() / p.mean())
+    yield "admissible_non_sparse_signal", nonsparse, f"{sum(1 for v in mags if v >= mags[-1] / 10)} of {len(mags)} samples within 20 dB of the peak"
+    yield "output_papr_within_limit", papr <= L * (1 + 1e-6), f"PAPRConstraint({L}) on a weak real signal (mean power {float((x ** 2).mean()):.3g}): output PAPR {papr:.4f} > limit {L}" if papr > L else f"output PAPR {papr:.4f}"
